@@ -437,6 +437,49 @@ template<class T> static T gen_value(vh::Rng & r, const Setup<T> & s, int kind, 
   }
 }
 
+// ------------------------------------------------------------------------------------------
+// Near-duplicate successor of the previously evaluated value: consecutive inputs that compare
+// equal but print differently (+0.0 / -0.0), the same value again, the adjacent representable
+// values, and the value +- a log-spaced delta.  An implementation that caches anything derived
+// from the last input (printed text, verdict, message) keyed on == or on "close enough" shows here.
+// ------------------------------------------------------------------------------------------
+enum {FU_NONE = 0, FU_SAME = 1, FU_ZERO_FLIP = 2, FU_ADJACENT = 3, FU_DELTA = 4};
+
+template<class T> static int followup_value(vh::Rng & r, T prev, T & v)
+{
+  if constexpr (std::is_same<T, int>::value) {
+    switch ((int)r.range(0, 2)) {
+      case 0: v = prev; return FU_SAME;
+      case 1: v = prev == INT_MAX ? prev - 1 : (prev == INT_MIN ? prev + 1 : (r.coin() ? prev + 1 : prev - 1)); return FU_ADJACENT;
+      default: {
+          int64_t w = (int64_t)prev + (int64_t)(r.sign() * std::floor(r.logu(2.0, 1e6)));
+          v = (int)std::min<int64_t>(INT_MAX, std::max<int64_t>(INT_MIN, w)); return FU_DELTA;
+        }
+    }
+  } else {
+    const T INF = std::numeric_limits<T>::infinity();
+    if (prev == 0 && r.coin(0.6)) {v = -prev; return FU_ZERO_FLIP;}
+    switch ((int)r.range(0, 3)) {
+      case 0: v = prev; return FU_SAME;
+      case 1: v = clampfin<T>(std::nextafter(prev, r.coin() ? INF : -INF)); return FU_ADJACENT;
+      case 2: {
+          T rel = (T)r.logu((double)std::numeric_limits<T>::epsilon() / 4, 1e-3);
+          v = clampfin<T>(prev + (r.coin() ? rel : -rel) * (prev == 0 ? (T)1 : prev)); return FU_DELTA;
+        }
+      default: v = r.coin() ? (T)0.0 : -(T)0.0; return FU_DELTA;     // sets up a zero for the next step
+    }
+  }
+}
+
+static void followup_cat(int fu)
+{
+  if (fu == FU_NONE) {return;}
+  cat("seq_near_duplicate_consecutive");
+  if (fu == FU_SAME) {cat("seq_same_value_again");} else if (fu == FU_ZERO_FLIP) {cat("seq_signed_zero_flip");} else if (fu == FU_ADJACENT) {
+    cat("seq_adjacent_value");
+  }
+}
+
 template<class T> static void threshold_case(vh::Ctx & c, vh::Rng & r, int kind)
 {
   Setup<T> s = gen_setup<T>(r, c);
@@ -466,8 +509,10 @@ template<class T> static void threshold_case(vh::Ctx & c, vh::Rng & r, int kind)
   bool nontrivial = false, had_timeout = false, timeout_then_eval = false;
   int seen_verdicts = 0;
   int L = (int)r.range(1, 8);
+  bool have_prev = false; T prev = T();
   for (int i = 0; i < L; ++i) {
     if (r.coin(0.12)) {
+      have_prev = false;
       d.steps.push_back({1, 0, 0});
       chk->timeout();
       DiagnosticReport rep = chk->getReport();
@@ -477,8 +522,11 @@ template<class T> static void threshold_case(vh::Ctx & c, vh::Rng & r, int kind)
       h = vh::hash_addi(h, 0x71);
       continue;
     }
-    int tag;
+    int tag, fu = FU_NONE;
     T v = gen_value<T>(r, s, kind, tag);
+    if (have_prev && r.coin(0.35)) {fu = followup_value<T>(r, prev, v); tag = TAG_OTHER; nontrivial = true;}
+    followup_cat(fu);
+    prev = v; have_prev = true;
     d.steps.push_back({0, (LD)v, tag});
     DiagnosticStatus ret = chk->evaluate(v);
     DiagnosticReport rep = chk->getReport();
@@ -528,6 +576,7 @@ static void reliability_case(vh::Ctx & c, vh::Rng & r)
   bool nontrivial = false;
   const double INF = std::numeric_limits<double>::infinity();
   int L = (int)r.range(1, 8);
+  double prev = 0;
   for (int i = 0; i < L; ++i) {
     double thr = r.coin() ? low : high;
     double v; int tag = TAG_OTHER;
@@ -541,6 +590,8 @@ static void reliability_case(vh::Ctx & c, vh::Rng & r)
       default: v = r.sign() * r.logu(1e-300, 1e300); break;
     }
     v = clampfin<double>(v);
+    if (i > 0 && r.coin(0.35)) {followup_cat(followup_value<double>(r, prev, v)); tag = TAG_OTHER; nontrivial = true;}
+    prev = v;
     d.steps.push_back({0, (LD)v, tag});
     DiagnosticStatus ret = chk.evaluate(v);
     DiagnosticReport rep = chk.getReport();
